@@ -635,7 +635,10 @@ func (l *Logger) Export() *HAR {
 	curr := l.tail
 	for curr != nil {
 		curr = curr.next
-		es = append(es, curr)
+		// Export a copy: the live entry is still updated by RecordResponse
+		// under l.mu after this call returns.
+		e := *curr
+		es = append(es, &e)
 		if curr == l.tail {
 			break
 		}
